@@ -154,6 +154,19 @@ def run_get_data(it, st, T, c, enc_kind, with_attrs):
     expect_record(it, st, f'{name}:stored-data-plus-sid-omitted-only-for-None' + ('-exactly-the-requested-attributes' if with_attrs else ''), d, D.items, encspec(x), attrs)
     return 'ok'
 
+_NONE_TYPES = []
+def none_configured_types(it):
+    """the Sid types that the text of spil_data_conf.get_getter_for maps to the literal None in a dict display ('no Getter: no data can be retrieved')"""
+    if not _NONE_TYPES:
+        import ast, os
+        src = [p for p in it.world.search_paths if os.path.exists(os.path.join(p, 'spil_data_conf.py'))]
+        tree = it.world.parse(os.path.join(src[0], 'spil_data_conf.py')); out = set()
+        for fn in [n for n in ast.walk(tree) if isinstance(n, ast.FunctionDef) and n.name == 'get_getter_for']:
+            for d in [n for n in ast.walk(fn) if isinstance(n, ast.Dict)]:
+                for k, v in zip(d.keys, d.values):
+                    if isinstance(k, ast.Constant) and isinstance(k.value, str) and isinstance(v, ast.Constant) and v.value is None: out.add(k.value)
+        _NONE_TYPES.append(out)
+    return _NONE_TYPES[0]
 def run_all(it, st, T, c):
     x, vals = C.mk_concrete(it, T)
     fs, ents = fs_setup(it, st, [x], c)
@@ -168,10 +181,11 @@ def run_all(it, st, T, c):
     except Raised as e:
         st.oblige(f'{name}.get_data/get_attr:raises-nothing', False, ('C16',), info={'exception': V.exc_name(e), 'args': repr(e.exc.attrs.get('args'))[:150]}); st.observed = {}; return 'ok'
     st.observed = {}
-    no_getter = T in ('project', 'asset', 'shot', 'asset__assettype', 'asset__state', 'shot__state')      # read from the configuration function below, see oblige
+    no_getter = T in none_configured_types(it)      # read from the TEXT of the configuration (a type mapped to the literal None), not from what the function returns
     conf_fn = it.resolve(it.module('spil.conf').ns['get_getter_for'])
     configured = it.call(conf_fn, [x], {})
-    if configured is None:
+    st.oblige(f'{name}:the-configuration-function-returns-None-exactly-for-the-types-configured-with-None', (configured is None) == no_getter, ('C16',), info={'type': T, 'configured-None-in-the-text': no_getter, 'returned': repr(configured)[:80]})
+    if no_getter:
         st.oblige(f'{name}:a-type-configured-without-getter-yields-nothing-and-does-not-fail', isinstance(d, PDict) and not d.items and a is None, ('C16',))
         return 'ok'
     if ps is None:
